@@ -370,7 +370,8 @@ def allEqualSymbols (body : List BLit) : List (List Lit) :=
     | [] => none
     | [_] => none
     | x :: rest =>
-      if rest.all fun y => litPred? y == litPred? x then some (sortBy litCmp subset) else none
+      -- fix b1ed274: same predicate AND same sign
+      if rest.all fun y => litPred? y == litPred? x && y.1 == x.1 then some (sortBy litCmp subset) else none
 
 /-! ## `largest_symmetric_group` -/
 
